@@ -1402,7 +1402,12 @@ def parse(expression, variables, indices, arg_shapes={}, default_geometry_name='
     arg_shapes = dict(arg_shapes)
     for arg, shape in parser.arg_shapes.items():
         arg_shapes[arg] = tuple(lengths.get(i, i) for i in shape)
-    return _replace_lengths(ast, lengths), arg_shapes
+    try:
+        return _replace_lengths(ast, lengths), arg_shapes
+    except KeyError as e: # an axis that is not linked to any other, e.g. the numeral axis of `?arg_0`
+        if not e.args or not isinstance(e.args[0], _Length):
+            raise
+        raise ExpressionSyntaxError('Length of axis cannot be determined from the expression.' + '\n' + expression + '\n' + ' '*e.args[0].pos + '^') from None
 
 
 def _eval_ast(ast, functions):
